@@ -1,4 +1,5 @@
 """C07 - the construction API never leaves an illegally wired circuit."""
+import json
 import zlib
 
 from rv.gen import circuits as G
@@ -332,7 +333,7 @@ def check(case, ctx):
     if case["start"] and case["start"]["bbs"]:
         # the history runs on a circuit derived from another one (copy / strip_* / relabel): the two are separate
         # objects from then on, and the one the history does not touch must keep its graph and its instance records
-        how = ["none", "none", "copy", "strip_inputs", "strip_outputs", "strip_io", "relabel"][zlib.crc32(repr(sorted(case["start"]["bbs"])).encode() + bytes([len(case["start"]["nodes"]) % 251])) % 7]
+        how = ["none", "none", "copy", "strip_inputs", "strip_outputs", "strip_io", "relabel"][zlib.crc32(json.dumps(case["start"], sort_keys=True).encode()) % 7]
         if how != "none":
             src = c
             c = c.copy() if how == "copy" else cg.tx.relabel(src, {}) if how == "relabel" else getattr(cg.tx, how)(src)
